@@ -76,7 +76,8 @@ def mc_configs(ctx):
         ("main", dict(min=1, max=1000, lo=0, hi=1060 if q else 2600,
                       extra=list(range(1995, 2012)) + list(range(2495, 2512)) if q else [],
                       buffers=[0, 1, 3] if q else [0, 1, 2, 3], fees=[0, 1, 3] if q else [0, 1, 2, 3],
-                      caps=[1, 2, 3, 13, 15, 29], answers=[0, 1, 2, 3])),
+                      # (splits in this domain have at most 12 parts: caps 13, 15, 29 coincide)
+                      caps=[1, 2, 3, 29] if q else [1, 2, 3, 13, 15, 29], answers=[0, 1, 2, 3])),
         # many notes: the fee steps at multiples of F = 14 and the caps around them
         # (quick: the 15-note step on odd seeds, the 29-note step on even seeds)
         ("many", dict(min=1, max=5, lo=(60 if odd_seed(ctx) else 130) if q else 0,
